@@ -34,6 +34,9 @@ TAILS = [
     ":alert(1)", "://x/y", ":text/html,<script>alert(1)</script>", ":image/png;base64,AAAA", ":image/svg+xml;base64,AAAA",
     ":image/gif,AAAA", ":IMAGE/PNG;x", ":", ":x y", ":image/jpeg;x", ":image/webp;", ":image/gif;alert(1)", ":image/png",
     ":image/pngx;", ":/etc/passwd", ":a@b.c", "", "//x", ":%0aalert(1)", ":image/gif;base64,R0lGODlh",
+    # code points the URL-encoding dependency cannot encode (a high surrogate followed by a low one raises there; lone ones
+    # become %EF%BF%BD): whatever is emitted must still be URL-safe ASCII
+    ":alert(1)//\ud800\udc00", "://x/\ud800\udc00", ":\udc00x", ":x\ud83d",
 ]
 NAMED = {
     ":": "&colon;", "\t": "&Tab;", "\n": "&NewLine;", "/": "&sol;", "(": "&lpar;", ")": "&rpar;", ";": "&semi;", ",": "&comma;",
